@@ -157,45 +157,6 @@ fn insns_dump(h: &LineProgramHeader<R>) -> String {
     out
 }
 
-/// Classification of a monotonicity failure at emitted row `kviol` (known finding): re-run the
-/// instructions through the public `LineRow::execute`/`reset` in lockstep with the emitted rows and
-/// report whether a row-producing DW_LNE_end_sequence was suppressed (it did not show up among the
-/// emitted rows) between emitted rows `kviol - 1` and `kviol`.
-fn swallowed_end_before(
-    prog: &gimli::IncompleteLineProgram<R>,
-    all: &[LineRow],
-    kviol: usize,
-) -> bool {
-    let mut p2 = prog.clone();
-    let h = prog.header().clone();
-    let mut it = h.instructions();
-    let mut m = LineRow::new(&h);
-    let mut k = 0usize;
-    let mut swallowed = false;
-    loop {
-        let i = match it.next_instruction(&h) {
-            Ok(Some(i)) => i,
-            _ => return false,
-        };
-        match m.execute(i, &mut p2) {
-            Ok(true) => {
-                if k < all.len() && m == all[k] {
-                    if k == kviol {
-                        return swallowed;
-                    }
-                    k += 1;
-                    swallowed = false;
-                } else if m.end_sequence() {
-                    swallowed = true;
-                }
-                m.reset(&h);
-            }
-            Ok(false) => {}
-            Err(_) => return false,
-        }
-    }
-}
-
 /// mask of an address size as the property understands it (sizes 1..8)
 fn mask(asz: u8) -> u64 {
     if asz >= 8 {
@@ -283,10 +244,6 @@ pub fn run(t: &[&str]) -> String {
                     }
                     if let Some(p) = prev {
                         if r.address() < p {
-                            let k = all.iter().position(|x| core::ptr::eq(x, r)).unwrap_or(usize::MAX);
-                            if swallowed_end_before(&prog, &all, k) {
-                                return format!("swallowed-end-monotone-mismatch {}", out);
-                            }
                             return format!("monotone-mismatch {}", out);
                         }
                     }
